@@ -21,6 +21,8 @@
 mod iface;
 mod socket;
 mod timer;
+#[cfg(libp2p_verif)]
+pub use iface::verif_c55;
 
 use std::{
     cmp,
